@@ -208,13 +208,13 @@ TASKS = {
          lambda p: (p['ri'], p['rp'], p['ei'], p['ep']), {'offset_ratio': None}),
         (['Onset_Precision', 'Onset_Recall', 'Onset_F-measure'], 'onset_precision_recall_f1', lambda p: (p['ri'], p['ei']), {'offset_ratio': None}),
         (['Offset_Precision', 'Offset_Recall', 'Offset_F-measure'], 'offset_precision_recall_f1', lambda p: (p['ri'], p['ei']), {'offset_ratio': 'USER|0.2'})],
-        userkw=['onset_tolerance', 'pitch_tolerance', 'offset_min_tolerance', 'strict', 'beta']),
+        userkw=['onset_tolerance', 'pitch_tolerance', 'offset_min_tolerance', 'strict', 'beta', 'offset_ratio']),
     'transcription_velocity': dict(mod=TV, pre=_id4(['ri', 'rp', 'rv', 'ei', 'ep', 'ev']), entries=[
         (['Precision', 'Recall', 'F-measure', 'Average_Overlap_Ratio'], 'precision_recall_f1_overlap',
          lambda p: (p['ri'], p['rp'], p['rv'], p['ei'], p['ep'], p['ev']), {'offset_ratio': 'USER|0.2'}),
         (['Precision_no_offset', 'Recall_no_offset', 'F-measure_no_offset', 'Average_Overlap_Ratio_no_offset'], 'precision_recall_f1_overlap',
          lambda p: (p['ri'], p['rp'], p['rv'], p['ei'], p['ep'], p['ev']), {'offset_ratio': None})],
-        userkw=['onset_tolerance', 'pitch_tolerance', 'offset_min_tolerance', 'strict', 'velocity_tolerance', 'beta']),
+        userkw=['onset_tolerance', 'pitch_tolerance', 'offset_min_tolerance', 'strict', 'velocity_tolerance', 'beta', 'offset_ratio']),
     'tempo': dict(mod=TEMPO, pre=_id4(['rt', 'w', 'et']), entries=[(['P-score', 'One-correct', 'Both-correct'], 'detection', lambda p: (p['rt'], p['w'], p['et']), {})],
                   userkw=['tol']),
     'pattern': dict(mod=PAT, pre=_id4(['ref', 'est']), entries=[
@@ -225,7 +225,7 @@ TASKS = {
         (['F_3', 'P_3', 'R_3'], 'three_layer_FPR', lambda p: (p['ref'], p['est']), {}),
         (['FFP'], 'first_n_three_layer_P', lambda p: (p['ref'], p['est']), {'n': 'USER|5'}),
         (['FFTP_est'], 'first_n_target_proportion_R', lambda p: (p['ref'], p['est']), {'n': 'USER|5'})],
-        userkw=['tol', 'similarity_metric']),
+        userkw=['tol', 'similarity_metric', 'n']),
     'hierarchy': dict(mod=HIER, pre=_hier_pre, entries=[
         (['T-Precision reduced', 'T-Recall reduced', 'T-Measure reduced'], 'tmeasure', lambda p: (p['rh'], p['eh']), {'transitive': False}),
         (['T-Precision full', 'T-Recall full', 'T-Measure full'], 'tmeasure', lambda p: (p['rh'], p['eh']), {'transitive': True}),
